@@ -88,10 +88,51 @@ def check(ctx):
 
     R3 = ctx.rule("R3", "get_client opens, reads, parses and adds every listed root file; any failure is an error (never skipped)")
     nx = [c for c in gb.calls_to("core::iter::traits::iterator::Iterator::next") if arg_origins(c, 0).has_leaf("param:1")]
-    ctx.floor(R3, "loop over root_certs in get_client", len(nx), 1)
+    # the same loop as an error-propagating internal iteration: root_certs.iter().try_fold(builder, |b, file| { load(file)?; Ok(b.add(..)) })
+    tf = [c for c in gb.calls if c.bb in gb.live_blocks() and (c.fn or "").rsplit("::", 1)[-1] in ("try_fold", "try_for_each") and arg_origins(c, 0).has_leaf("param:1")]
+    ctx.floor(R3, "loop over root_certs in get_client", len(nx) + len(tf), 1)
     steps = [("std::fs::File::open", "open"), ("std::io::Read::read_to_end", "read"), ("reqwest::tls::Certificate::from_pem", "parse")]
+    for c in ([] if nx else tf):
+        from .c01 import shrinkers_in
+        ctx.require(R3, not shrinkers_in(arg_origins(c, 0)), c.where(), "every listed root file is visited", [GC, "files-dropped"])
+        for g in c.gbodies:
+            cb = prog.body(g)
+            if cb is None or cb.kind != "Closure":
+                continue
+            okb_, errb_, fwd_ = result_return_kinds(cb)
+            adds_ = cb.calls_to("reqwest::async_impl::client::ClientBuilder::add_root_certificate")
+            ctx.floor(R3, "add_root_certificate call", len(adds_), 1)
+            for name, role in steps:
+                cs = cb.calls_to(name)
+                ctx.require(R3, bool(cs), "%s:%s" % (cb.file, cb.line), "each listed file is %s (%s in the per-file closure)" % (role, name.rsplit("::", 1)[-1]), [GC, "step-" + role])
+                for x in cs:
+                    te = try_edges(cb, [x.dest["l"]])
+                    if not te:
+                        ctx.fail(R3, x.where(), "the result of %s is not tested" % name, [GC, "untested-" + role])
+                    for t in te:
+                        for tg in t["err"]:
+                            r = cb.reachable_flags([tg], removed_nodes=errb_)
+                            ctx.require(R3, not (set(cb.return_blocks()) & r) and not ({a.bb for a in adds_} & cb.reachable_flags([tg])), x.where(),
+                                        "a failed %s ends get_client with an error (the file is not skipped)" % role, [GC, "skip-on-" + role])
+            good, hit = unreachable_without(cb, okb_ + fwd_, removed_nodes=[a.bb for a in adds_], flags=True)
+            ctx.require(R3, bool(adds_) and good, "%s:%s" % (cb.file, cb.line), "no file is visited without add_root_certificate", [GC, "turn-without-add"])
+            for a in adds_:
+                sl = arg_origins(a, 1)
+                chain = all(any(x.is_(n) for x in sl.calls) or sl.via_any(n) for n, _ in steps) and sl.has_leaf("param:")
+                ctx.require(R3, chain, a.where(), "the added certificate = from_pem(read_to_end(File::open(listed path)))", [GC, "add-provenance"])
+            for x in [y for y in cb.calls_to("std::io::Read::read_to_end", "std::io::Read::read_to_string")]:
+                fresh = [y for y in arg_origins(x, 1).calls if (y.name or "").rsplit("::", 1)[-1] in ("new", "with_capacity", "clear", "truncate", "default")]
+                ctx.require(R3, bool(fresh), x.where(), "the read buffer is created or cleared for every root file", [GC, "shared-read-buffer"])
+        # the fold's result is tested and the client is built from it
+        te = try_edges(gb, [c.dest["l"]])
+        okg, errg, fwdg = result_return_kinds(gb)
+        errs = [tg for t in te for tg in t["err"]]
+        ctx.require(R3, bool(errs) and all(not (set(okg) & gb.reachable_flags([e])) for e in errs), c.where(), "a failure on any root file makes get_client fail", [GC, "fold-error-dropped"])
+        for bc in gb.calls_to("reqwest::async_impl::client::ClientBuilder::build"):
+            ctx.require(R3, any(x.bb == c.bb for x in arg_origins(bc, 0).calls), bc.where(), "build() is called on the builder that received the root certificates", [GC, "build-other-builder"])
     adds = gb.calls_to("reqwest::async_impl::client::ClientBuilder::add_root_certificate")
-    ctx.floor(R3, "add_root_certificate call", len(adds), 1)
+    if nx or not tf:
+        ctx.floor(R3, "add_root_certificate call", len(adds), 1)
     if nx:
         scc = set(gb.scc_of(nx[0].bb) or [])
         for name, role in steps:
